@@ -114,6 +114,7 @@ def run(out, tier, seed):
             cases.append(dict(c, id=len(cases), mode="api"))
         if c["src"] != "tlc-exhaustive" or rng.random() < 0.2:
             cases.append(dict(c, id=len(cases), mode="ovprobe"))
+    run_staged(out, tier, seed, rng, work)
     traces = L.run_histories(cases, work, driver="harness.drivers.gen_driver")
     fails, results = L.validate(traces, work, spec="TraceGen")
     for i, r in enumerate(results):
@@ -134,9 +135,48 @@ def run(out, tier, seed):
     out.samples.append({"witnesses": sigs_all})
 
 
+def run_staged(out, tier, seed, rng, work):
+    """the caller's side (TraceStaged.tla): every non-decreasing assignment of stages to up to N steps of one or two generators"""
+    import itertools
+    import os
+    cases = []
+    nmax = 4 if tier == "quick" else 6
+    for n in range(1, nmax + 1):
+        for stages in itertools.combinations_with_replacement([1, 2, 3], n):
+            for gens in ([[1] * n] + ([[rng.choice([1, 2]) for _ in range(n)]] if n > 1 else [])):
+                steps = [[s, g] for s, g in zip(stages, gens)]
+                cases.append({"form": "capture", "k": 0, "stages": steps})
+                cases.append({"form": "cond", "k": rng.choice([1, 2, 3]), "stages": steps})
+    for mode in ("probe", "overlay"):
+        cs = [dict(c, id=i, mode=mode) for i, c in enumerate(cases)]
+        cin, cout = os.path.join(work, f"sg-{mode}.json"), os.path.join(work, f"st-{mode}.json")
+        json.dump(cs, open(cin, "w"))
+        core.run_driver("harness.drivers.staged_driver", [cin, cout])
+        res = {c["id"]: c for c in json.load(open(cout))}
+        r = core.run_tlc("TraceStaged", "TraceStaged.cfg", env={"TRACE_FILE": cout}, workers=2, timeout=600)
+        out.add_tlc(f"TraceStaged[{mode}]", r)
+        for t in r.tagged("FAIL"):
+            c = res[t[1]]
+            out.judge({"clause": t[2], "generator_started_before": False, "mech": False}, {"case": c, "events": c["events"]})
+        out.traces += len(cs)
+    out.extra["staged_cases"] = 2 * len(cases)
+
+
 def replay(out, path):
     case = json.load(open(path))["case"]["case"]
     work = core.scratch("c09r-")
+    if "stages" in case:
+        import os
+        cin, cout = os.path.join(work, "sg.json"), os.path.join(work, "st.json")
+        json.dump([{k: case[k] for k in ("id", "form", "k", "stages", "mode")}], open(cin, "w"))
+        core.run_driver("harness.drivers.staged_driver", [cin, cout])
+        r = core.run_tlc("TraceStaged", "TraceStaged.cfg", env={"TRACE_FILE": cout}, workers=1, timeout=600)
+        out.add_tlc("TraceStaged[replay]", r)
+        out.traces += 1
+        for t in r.tagged("FAIL"):
+            out.judge({"clause": t[2], "generator_started_before": False, "mech": False}, {"case": case})
+        out.samples.append({"replayed": path})
+        return
     traces = L.run_histories([case], work, driver="harness.drivers.gen_driver", par=1)
     fails, results = L.validate(traces, work, spec="TraceGen", par=1)
     for r in results:
